@@ -257,9 +257,31 @@ pub fn run(ctx: &Ctx, rep: &mut Report) {
         let mut custody: i128 = 1000;
         let mut deployed_remote: Vec<[u8; 32]> = Vec::new();
         let mut alive = true;
+        let mut window: Option<Address> = None;
         for round in 0..5 {
             if !alive {
                 break;
+            }
+            // the service (or the gateway) is upgraded to the same code in some rounds and migrated
+            // a round later: meanwhile a conforming delivery may be refused, but none of the
+            // deviating ones may take effect
+            match window.clone() {
+                None => {
+                    if rng.chance(1, 5) {
+                        let a = if rng.chance(2, 3) { w.its.clone() } else { w.g.addr.clone() };
+                        if w.u.upgrade_only(&a).is_ok() {
+                            window = Some(a);
+                            rep.count("migration-window-opened");
+                            rep.step("upgrade to the same code: the migration window opens".into());
+                        }
+                    }
+                }
+                Some(a) => {
+                    let _ = w.u.migrate_only(&a, &[]);
+                    window = None;
+                    rep.count("upgrade-and-migrate");
+                    rep.step("migration: the window closes".into());
+                }
             }
             if rng.chance(1, 3) {
                 let d = rng.ledger_jump();
@@ -567,6 +589,10 @@ pub fn run(ctx: &Ctx, rep: &mut Report) {
             rep.step(format!("round {} conforming {} origin={:?} amount={} -> {:?}", round, kind, lossy(&conf.origin), conf.amount, o.res));
             rep.count(&format!("conforming:{}", kind));
             rep.eval("conforming", &format!("conforming|{}|{}", kind, o.ok()), true);
+            if !o.ok() && window.is_some() {
+                rep.count("note:valid-request-refused-while-migration-window-open");
+                continue;
+            }
             if !o.ok() {
                 rep.violation(&format!("conforming-delivery-refused:{}", kind), format!("{:?}", o.res));
                 break;
